@@ -13,6 +13,7 @@
 # limitations under the License.
 """Symbolic dict."""
 
+import copy
 import typing
 from typing import Any, Callable, Iterable, Iterator, List, Optional, Sequence, Set, Tuple, Union
 
@@ -593,7 +594,9 @@ class Dict(dict, base.Symbolic, pg_typing.CustomTyping):
     allow_partial = base.accepts_partial(self)
     if field and pg_typing.MISSING_VALUE == value:
       # NOTE(daiyip): default value is already in transformed form.
-      value = field.default_value
+      # It is copied (as `Schema.apply` does), since the field's default is
+      # shared by all objects of the class.
+      value = copy.deepcopy(field.default_value)
     else:
       value = base.from_json(
           value,
